@@ -331,6 +331,21 @@ def check(run):
         for r1 in up_r1:
             for r2 in R11:
                 add(*q_cell(name, "pair", U1, U2, k, r1, r2, False))
+    # ---- different dimensions ("true exactly when the dimensions match"): the predicate must answer no for every rep pair,
+    #      whatever the magnitudes (equal magnitudes are the case where only the dimension can say no), without a hard error
+    xdim = [("m->s", "au::Meters", "au::Seconds"), ("s->Hz", "au::Seconds", "au::Hertz"), ("m->m/s", "au::Meters", "decltype(au::Meters{} / au::Seconds{})"),
+            ("km->ks", "au::Kilo<au::Meters>", "au::Kilo<au::Seconds>"), ("m->g", "au::Meters", "au::Grams"), ("ft->min", "au::Feet", "au::Minutes"),
+            ("rad->1", "au::Radians", "au::Unos"), ("m^2->m", "decltype(au::squared(au::Meters{}))", "au::Meters")]
+    xd_r = ["int8_t", "uint16_t", "int32_t", "uint64_t", "double"] if quick else R11
+    for (name, U1, U2) in xdim:
+        for r1 in xd_r:
+            for r2 in xd_r:
+                stm, m = q_cell("xdim:" + name, "xdim", U1, U2, {}, r1, r2, False)
+                stm = [x for k_, x in enumerate(stm) if k_ not in m["conv_stmts"] and 'vf_i("pick2"' not in x]
+                m.update({"exp": False, "conv_stmts": [], "xdim": True})
+                m.pop("vals", None)
+                m.pop("pick2", None)
+                add(stm, m)
     # ---- long long / unsigned long long (distinct types of the same width as int64_t / uint64_t)
     th64, thu64 = tmax("int64_t") // 2147, tmax("uint64_t") // 2147
     xl_pairs = [(a, b) for a in XL for b in XL + ["int32_t", "int64_t", "uint64_t", "double"]]
